@@ -329,7 +329,7 @@ def oracle(scn, sim, h, tw):
             if times is not None and len(times) == len(cap_ok) + 1 and h.frames and not h.frames[-1]["completed"] and h.frames[-1]["step"] == i:
                 cap_ok = cap_ok + [h.frames[-1]]
             last = max([fr["step"] for fr in cap_ok], default=0)
-            Vs = recorder.check_solution(tw, sol, cap_ok, last, recorder.model_times([u["dt"] for u in tw.stages["S"] if u["out"] is not None]))
+            Vs = recorder.check_solution(tw, sol, cap_ok, last, recorder.model_times([recorder.used_dt(u) for u in tw.stages["S"] if u["out"] is not None]))
             for v in Vs:
                 v["where"].update(where0)
                 v["where"]["i_mod_k"] = i % k
